@@ -159,6 +159,12 @@ def check(case):
             reading = "".join(str((s >> i) & 1) for i in range(n))[::-1]
             try:
                 got = alg.decode_output(reading)
+                # a string measured on all qubits carries the other qubits in front of the register
+                extra = alg.circuit().num_qubits - n
+                full = "".join(rng.choice("01") for _ in range(extra)) + reading
+                got_full = alg.decode_output(full)
+                if (tuple(got_full) if isinstance(argt, list) else int(got_full)) != (tuple(got) if isinstance(argt, list) else int(got)):
+                    fail("decode_output_full_string", f"form {fname}: decode_output({full!r}) = {got_full!r} but decode_output({reading!r}) = {got!r}")
                 expv = codec.decode(argt, [(s >> i) & 1 for i in range(n)])
                 cnt["decode_checked"] = cnt.get("decode_checked", 0) + 1
                 ok = (tuple(got) == tuple(expv)) if isinstance(argt, list) else (int(got) == expv and type(got).__name__ == argt)
